@@ -32,7 +32,7 @@ static pthread_mutex_t out_mx = PTHREAD_MUTEX_INITIALIZER;
 
 /* ------------------------------------------------------------ small universe shared by writer and readers */
 #define NPFX 24
-#define NKEY 10
+#define NKEY 80
 static struct pfx_record upfx[NPFX];
 static struct spki_record ukey[NKEY];
 static void mk_universe(void)
@@ -56,16 +56,16 @@ static void mk_universe(void)
 			r->max_len = r->min_len + 2;
 		}
 		r->asn = 65000 + i % 4;
-		r->socket = &sockA;
+		r->socket = i % 2 ? &sockB : &sockA;
 	}
 	for (int i = 0; i < NKEY; i++) {
 		memset(&ukey[i], 0, sizeof(ukey[i]));
-		ukey[i].asn = 65000 + i % 3;
+		ukey[i].asn = 65000 + i / 2; /* pairs share (AS, SKI); distinct AS numbers spread over the hash buckets */
 		memset(ukey[i].ski, 0x11, SKI_SIZE);
-		ukey[i].ski[0] = i % 2;
+		ukey[i].ski[0] = (i / 2) % 2;
 		memset(ukey[i].spki, 0x22, SPKI_SIZE);
 		ukey[i].spki[5] = i;
-		ukey[i].socket = &sockA;
+		ukey[i].socket = i % 3 ? &sockA : &sockB;
 	}
 }
 static void dump_universe(void)
@@ -74,15 +74,15 @@ static void dump_universe(void)
 		const struct pfx_record *r = &upfx[i];
 
 		if (r->prefix.ver == LRTR_IPV4)
-			fprintf(out, "{\"e\":\"upfx\",\"i\":%d,\"r\":{\"f\":4,\"w\":[%u,%u],\"l\":%u,\"m\":%u,\"a\":\"%u\"}}\n", i + 1,
-				r->prefix.u.addr4.addr >> 16, r->prefix.u.addr4.addr & 0xffff, r->min_len, r->max_len, r->asn);
+			fprintf(out, "{\"e\":\"upfx\",\"i\":%d,\"r\":{\"f\":4,\"w\":[%u,%u],\"l\":%u,\"m\":%u,\"a\":\"%u\",\"s\":%d}}\n", i + 1,
+				r->prefix.u.addr4.addr >> 16, r->prefix.u.addr4.addr & 0xffff, r->min_len, r->max_len, r->asn, r->socket == &sockB);
 		else
-			fprintf(out, "{\"e\":\"upfx\",\"i\":%d,\"r\":{\"f\":6,\"w\":[%u,%u,%u,%u,0,0,0,0],\"l\":%u,\"m\":%u,\"a\":\"%u\"}}\n", i + 1,
+			fprintf(out, "{\"e\":\"upfx\",\"i\":%d,\"r\":{\"f\":6,\"w\":[%u,%u,%u,%u,0,0,0,0],\"l\":%u,\"m\":%u,\"a\":\"%u\",\"s\":%d}}\n", i + 1,
 				r->prefix.u.addr6.addr[0] >> 16, r->prefix.u.addr6.addr[0] & 0xffff, r->prefix.u.addr6.addr[1] >> 16,
-				r->prefix.u.addr6.addr[1] & 0xffff, r->min_len, r->max_len, r->asn);
+				r->prefix.u.addr6.addr[1] & 0xffff, r->min_len, r->max_len, r->asn, r->socket == &sockB);
 	}
 	for (int i = 0; i < NKEY; i++)
-		fprintf(out, "{\"e\":\"ukey\",\"i\":%d,\"a\":\"%u\",\"k\":%d}\n", i + 1, ukey[i].asn, ukey[i].ski[0]);
+		fprintf(out, "{\"e\":\"ukey\",\"i\":%d,\"a\":\"%u\",\"k\":%d,\"s\":%d}\n", i + 1, ukey[i].asn, ukey[i].ski[0], ukey[i].socket == &sockB);
 }
 static const char *vname(enum pfxv_state s)
 {
@@ -134,7 +134,7 @@ static void *reader_rw(void *p)
 		} else if (kind < 9) {
 			struct spki_record *res = NULL;
 			unsigned int n = 0;
-			unsigned int mask = 0;
+			bool hit[NKEY] = {false};
 
 			spki_table_get_all(&spkit, ukey[k].asn, ukey[k].ski, &res, &n);
 			long c1 = atomic_load(&counter);
@@ -142,11 +142,11 @@ static void *reader_rw(void *p)
 			for (unsigned int j = 0; j < n; j++)
 				for (int u = 0; u < NKEY; u++)
 					if (!memcmp(res[j].spki, ukey[u].spki, SPKI_SIZE) && res[j].asn == ukey[u].asn)
-						mask |= 1u << u;
+						hit[u] = true;
 			free(res);
 			int o = snprintf(buf, sizeof(buf), "{\"e\":\"rget\",\"rd\":%d,\"c0\":%ld,\"c1\":%ld,\"k\":%d,\"n\":%u,\"ks\":[", a->id, c0, c1, k + 1, n);
 			for (int u = 0, first = 1; u < NKEY; u++)
-				if (mask & (1u << u)) {
+				if (hit[u]) {
 					o += snprintf(buf + o, sizeof(buf) - o, "%s%d", first ? "" : ",", u + 1);
 					first = 0;
 				}
@@ -175,6 +175,24 @@ static void *reader_rw(void *p)
 	}
 	return NULL;
 }
+/* user callbacks take time: every third notification yields the CPU for a moment (runs in the writer, inside the call) */
+static unsigned int cb_calls;
+static void slow_pfx_cb(struct pfx_table *t, const struct pfx_record r, const bool added)
+{
+	(void)t;
+	(void)r;
+	(void)added;
+	if (++cb_calls % 3 == 0)
+		usleep(40);
+}
+static void slow_spki_cb(struct spki_table *t, const struct spki_record r, const bool added)
+{
+	(void)t;
+	(void)r;
+	(void)added;
+	if (++cb_calls % 3 == 0)
+		usleep(40);
+}
 static int run_rw(unsigned long long seed, int nops, int nreaders)
 {
 	pthread_t th[16];
@@ -183,13 +201,14 @@ static int run_rw(unsigned long long seed, int nops, int nreaders)
 
 	vh_seed(seed);
 	dump_universe();
-	pfx_table_init(&pfxt, NULL);
-	spki_table_init(&spkit, NULL);
+	pfx_table_init(&pfxt, slow_pfx_cb);
+	spki_table_init(&spkit, slow_spki_cb);
 	for (int i = 0; i < nreaders; i++) {
 		args[i] = (struct rd_arg){.id = i + 1, .seed = seed * 977 + i};
 		pthread_create(&th[i], NULL, reader_rw, &args[i]);
 	}
 	bool inp[NPFX] = {false}, ink[NKEY] = {false};
+	int nk = 0;
 
 	for (int n = 0; n < nops; n++) {
 		int what = vh_rn(10);
@@ -198,8 +217,31 @@ static int run_rw(unsigned long long seed, int nops, int nreaders)
 		bool add = vh_chance(n % 40 < 20 ? 65 : 30);
 		int rc;
 
+		if (what >= 7) {
+			/* the number of keys swings across the resize thresholds of the hash table (33, 65 / 8, 16) */
+			int target = (n / 150) % 3 == 0 ? 70 : (n / 150) % 3 == 1 ? 3 : 40;
+
+			add = vh_chance(nk < target ? 85 : 15);
+		}
 		atomic_fetch_add(&counter, 1);
-		if (what < 7) {
+		if (what == 0 && n % 3 == 0) {
+			/* removal by source: one call, atomic for readers */
+			int src = vh_rn(2), keys = vh_rn(3) == 0;
+
+			if (keys)
+				spki_table_src_remove(&spkit, src ? &sockB : &sockA);
+			else
+				pfx_table_src_remove(&pfxt, src ? &sockB : &sockA);
+			atomic_fetch_add(&counter, 1);
+			if (keys) {
+				for (int u = 0; u < NKEY; u++)
+					if (ink[u] && (ukey[u].socket == &sockB) == src) {
+						ink[u] = false;
+						nk--;
+					}
+			}
+			snprintf(buf, sizeof(buf), "{\"e\":\"%s\",\"s\":%d}\n", keys ? "wsrck" : "wsrc", src);
+		} else if (what < 7) {
 			rc = add ? pfx_table_add(&pfxt, &upfx[i]) : pfx_table_remove(&pfxt, &upfx[i]);
 			atomic_fetch_add(&counter, 1);
 			if (rc == PFX_SUCCESS)
@@ -209,8 +251,10 @@ static int run_rw(unsigned long long seed, int nops, int nreaders)
 		} else {
 			rc = add ? spki_table_add_entry(&spkit, &ukey[k]) : spki_table_remove_entry(&spkit, &ukey[k]);
 			atomic_fetch_add(&counter, 1);
-			if (rc == SPKI_SUCCESS)
+			if (rc == SPKI_SUCCESS) {
+				nk += add ? 1 : -1;
 				ink[k] = add;
+			}
 			snprintf(buf, sizeof(buf), "{\"e\":\"wkey\",\"add\":%s,\"k\":%d,\"ok\":%s}\n", add ? "true" : "false", k + 1,
 				 rc == SPKI_SUCCESS ? "true" : "false");
 		}
